@@ -104,6 +104,13 @@ def _convert_returns(stmts: List[ast.stmt], cont: List[ast.stmt], target: Option
             new = ast.If(test=st.test, body=_convert_returns(st.body, rest + cont, target) or [ast.Pass()], orelse=_convert_returns(st.orelse, rest + cont, target))
             out.append(new)
             return out
+        if isinstance(st, ast.Try) and not st.finalbody and not any(_has(x, ast.Return) for x in st.body) and all(_always_leaves(h.body) or not _has(h, ast.Return) for h in st.handlers) \
+                and all(_always_leaves(h.body) for h in st.handlers):
+            # try: A / except K: ...return  followed by REST  is  try: A / except K: ... / else: REST (REST is not protected either way)
+            hs = [ast.ExceptHandler(type=h.type, name=h.name, body=_convert_returns(h.body, [], target) or [ast.Pass()]) for h in st.handlers]
+            new = ast.Try(body=st.body, handlers=hs, orelse=_convert_returns(list(st.orelse) + rest, cont, target) or [], finalbody=[])
+            out.append(new)
+            return out
         if _has(st, ast.Return):
             raise _Unsupported("return inside a loop / try / with")
         out.append(st)
@@ -113,6 +120,18 @@ def _convert_returns(stmts: List[ast.stmt], cont: List[ast.stmt], target: Option
         if not stmts or not isinstance(stmts[-1], (ast.Return, ast.Raise)):
             out.append(ast.Assign(targets=[_clone(target)], value=ast.Constant(value=None)))
     return out
+
+
+def _always_leaves(stmts: List[ast.stmt]) -> bool:
+    """Every path through the statements ends in return / raise."""
+    if not stmts:
+        return False
+    last = stmts[-1]
+    if isinstance(last, (ast.Return, ast.Raise)):
+        return True
+    if isinstance(last, ast.If):
+        return bool(last.orelse) and _always_leaves(last.body) and _always_leaves(last.orelse)
+    return False
 
 
 class _Renamer(ast.NodeTransformer):
@@ -226,7 +245,7 @@ class Expander:
         return qual, h, recv
 
     # ------------------------------------------------------------------ expansion of one call
-    def _expand(self, modname, cls, caller, call: ast.Call, target: Optional[ast.expr], caller_locals: Set[str], depth: int) -> Optional[List[ast.stmt]]:
+    def _expand(self, modname, cls, caller, call: ast.Call, target: Optional[ast.expr], caller_locals: Set[str], depth: int, tail: Optional[str] = None) -> Optional[List[ast.stmt]]:
         t = self._target(modname, cls, caller, call)
         if t is None:
             return None
@@ -278,14 +297,31 @@ class Expander:
                 mapping[n] = n + sfx
         ren = _Renamer(mapping)
         body = [ren.visit(s) for s in body]
-        body = _convert_returns(body, [], target)
+        leave = None
+        if target is None and tail in ("continue", "return"):
+            # a procedure call that ends a loop iteration (or the function): the helper's bare `return`s are `continue`s (`return`s),
+            # wherever they sit (also inside try / with) - unless one sits in a loop of the helper itself
+            rets = [x for st_ in body for x in ast.walk(st_) if isinstance(x, ast.Return)]
+            in_loops = {id(x) for st_ in body for lp in ast.walk(st_) if isinstance(lp, (ast.For, ast.While)) for x in ast.walk(lp) if isinstance(x, ast.Return)}
+            if rets and all(r_.value is None or (isinstance(r_.value, ast.Constant) and r_.value.value is None) for r_ in rets) and (tail == "return" or not any(id(r_) in in_loops for r_ in rets)):
+                leave = ast.Continue if tail == "continue" else ast.Return
+        if leave is not None:
+            class _L(ast.NodeTransformer):
+                def visit_Return(self, node):
+                    return ast.copy_location(leave() if leave is ast.Continue else ast.Return(value=None), node)
+            body = [_L().visit(s_) for s_ in body]
+            # a trailing leave is the fall-through
+            while body and isinstance(body[-1], (ast.Continue if leave is ast.Continue else ast.Return)) and len(body) > 1:
+                body.pop()
+        else:
+            body = _convert_returns(body, [], target)
         out = pre + body
         if not out:
             out = [ast.Pass()]
         # helpers called by the helper
         holder = ast.Module(body=out, type_ignores=[])
         if depth < 3:
-            self._rewrite_block(modname, cls, caller, holder.body, caller_locals | {m for m in mapping.values() if isinstance(m, str)}, depth + 1)
+            self._rewrite_block(modname, cls, caller, holder.body, caller_locals | {m for m in mapping.values() if isinstance(m, str)}, depth + 1, tail if target is None else None)
         for s in holder.body:
             for x in ast.walk(s):
                 ast.copy_location(x, call)
@@ -293,29 +329,42 @@ class Expander:
         return holder.body
 
     # ------------------------------------------------------------------ rewriting statements of a function
-    def _rewrite_block(self, modname, cls, caller, blk: List[ast.stmt], caller_locals: Set[str], depth: int):
+    def _rewrite_block(self, modname, cls, caller, blk: List[ast.stmt], caller_locals: Set[str], depth: int, tail: Optional[str] = None):
+        """tail: what "leaving this block at its end" means for control flow - 'continue' (the block ends a loop iteration),
+        'return' (it ends the function, which then returns None) or None (something else follows)."""
         i = 0
         while i < len(blk):
             st = blk[i]
+            here = tail if i == len(blk) - 1 else None
             for field in ("body", "orelse", "finalbody"):
                 sub = getattr(st, field, None)
                 if isinstance(sub, list) and sub and isinstance(sub[0], ast.stmt) and not isinstance(st, (ast.FunctionDef, ast.ClassDef, ast.AsyncFunctionDef)):
-                    self._rewrite_block(modname, cls, caller, sub, caller_locals, depth)
+                    if isinstance(st, (ast.For, ast.While)):
+                        sub_tail = "continue" if field == "body" else None
+                    elif isinstance(st, ast.If):
+                        sub_tail = here
+                    elif isinstance(st, ast.Try):
+                        sub_tail = here if (field == "orelse" or (field == "body" and not st.orelse)) and not st.finalbody else None
+                    elif isinstance(st, ast.With):
+                        sub_tail = None
+                    else:
+                        sub_tail = None
+                    self._rewrite_block(modname, cls, caller, sub, caller_locals, depth, sub_tail)
             if isinstance(st, ast.Try):
                 for h in st.handlers:
-                    self._rewrite_block(modname, cls, caller, h.body, caller_locals, depth)
-            repl = self._rewrite_stmt(modname, cls, caller, st, caller_locals, depth)
+                    self._rewrite_block(modname, cls, caller, h.body, caller_locals, depth, here if not st.finalbody else None)
+            repl = self._rewrite_stmt(modname, cls, caller, st, caller_locals, depth, here)
             if repl is not None:
                 blk[i:i + 1] = repl
                 i += len(repl)
             else:
                 i += 1
 
-    def _rewrite_stmt(self, modname, cls, caller, st: ast.stmt, caller_locals: Set[str], depth: int) -> Optional[List[ast.stmt]]:
+    def _rewrite_stmt(self, modname, cls, caller, st: ast.stmt, caller_locals: Set[str], depth: int, tail: Optional[str] = None) -> Optional[List[ast.stmt]]:
         try:
             # whole-statement forms
             if isinstance(st, ast.Expr) and isinstance(st.value, ast.Call):
-                r = self._expand(modname, cls, caller, st.value, None, caller_locals, depth)
+                r = self._expand(modname, cls, caller, st.value, None, caller_locals, depth, tail)
                 if r is not None:
                     return r
             if isinstance(st, ast.Assign) and len(st.targets) == 1 and isinstance(st.value, ast.Call) and isinstance(st.targets[0], (ast.Name, ast.Attribute, ast.Subscript, ast.Tuple)):
@@ -377,6 +426,7 @@ class Expander:
                         if isinstance(s, ast.FunctionDef):
                             self._do_function(modname, node, s)
             collapse_copies(m.tree)
+            attribute_read_aliases(m.tree)
             attribute_aliases(m.tree)
             sink_selected_receivers(m.tree)
             unroll_literal_loops(m.tree)
@@ -391,7 +441,7 @@ class Expander:
 
     def _do_function(self, modname, cls, fn: ast.FunctionDef):
         self._current = f"{modname}:{cls.name}.{fn.name}" if cls is not None else f"{modname}:{fn.name}"
-        self._rewrite_block(modname, cls, fn, fn.body, _locals_of(fn), 0)
+        self._rewrite_block(modname, cls, fn, fn.body, _locals_of(fn), 0, "return")
 
 
 def _attr_writers(cls: ast.ClassDef) -> Dict[str, Optional[Set[str]]]:
@@ -463,6 +513,81 @@ def collapse_copies(tree: ast.AST):
                         ast.fix_missing_locations(blk[i])
                         continue
                     i += 1
+
+
+def attribute_read_aliases(tree: ast.AST):
+    """`x = self.a` / `x = param.a.b` at the top level of a function, with `x` bound once, the root never rebound, the path not
+    re-assigned later in the function and (for `self.a`) no later `self.<m>()` that may rebind `a`: `x` names the same object as
+    the path from there on, so later loads of `x` are rewritten to the path (reads, subscript stores and mutating calls
+    through the local are then what they are: accesses to the attribute) and the alias statement is dropped."""
+    for cls in [n for n in ast.walk(tree) if isinstance(n, (ast.ClassDef, ast.Module))]:
+        writers = None
+        for fn in [m for m in cls.body if isinstance(m, ast.FunctionDef)]:
+            is_method = isinstance(cls, ast.ClassDef) and fn.args.args and not any(isinstance(d, ast.Name) and d.id == "staticmethod" for d in fn.decorator_list)
+            me = fn.args.args[0].arg if is_method else None
+            params = {a.arg for a in fn.args.args + fn.args.kwonlyargs + fn.args.posonlyargs}
+            stores: Dict[str, int] = {}
+            scoped: Set[str] = set()
+            attr_store_paths: List[Tuple[str, int]] = []
+            for x in ast.walk(fn):
+                if isinstance(x, ast.Name) and isinstance(x.ctx, (ast.Store, ast.Del)):
+                    stores[x.id] = stores.get(x.id, 0) + 1
+                elif isinstance(x, (ast.Global, ast.Nonlocal)):
+                    scoped |= set(x.names)
+                elif isinstance(x, (ast.FunctionDef, ast.Lambda)) and x is not fn:
+                    scoped |= {a.arg for a in x.args.args}
+                elif isinstance(x, ast.Attribute) and isinstance(x.ctx, (ast.Store, ast.Del)):
+                    attr_store_paths.append((ast.unparse(x), getattr(x, "lineno", 0)))
+            changed = True
+            while changed:
+                changed = False
+                for j, st in enumerate(fn.body):
+                    if not (isinstance(st, ast.Assign) and len(st.targets) == 1 and isinstance(st.targets[0], ast.Name) and isinstance(st.value, ast.Attribute) and _pure_path(st.value)):
+                        continue
+                    x = st.targets[0].id
+                    root = st.value
+                    while isinstance(root, ast.Attribute):
+                        root = root.value
+                    if x in params or x in scoped or stores.get(x) != 1 or root.id not in params or stores.get(root.id, 0) != 0:
+                        continue
+                    path = ast.unparse(st.value)
+                    # the path (or a prefix of it) is re-assigned later in the function
+                    if any((path == p_ or path.startswith(p_ + ".")) and ln >= st.lineno for p_, ln in attr_store_paths):
+                        continue
+                    if any(isinstance(y, ast.Name) and y.id == x and isinstance(y.ctx, ast.Load) for b in fn.body[:j + 1] for y in ast.walk(b)):
+                        continue          # used before / in the alias statement (a loop back edge could reach it)
+                    first = st.value
+                    while isinstance(first.value, ast.Attribute):
+                        first = first.value
+                    if me is not None and root.id == me:
+                        if writers is None:
+                            writers = _attr_writers(cls) if isinstance(cls, ast.ClassDef) else {}
+                        blocked = False
+                        for later in fn.body[j + 1:]:
+                            for c in ast.walk(later):
+                                if isinstance(c, ast.Call) and isinstance(c.func, ast.Attribute) and isinstance(c.func.value, ast.Name) and c.func.value.id == me:
+                                    w = writers.get(c.func.attr, set() if c.func.attr not in writers else None)
+                                    if c.func.attr in writers and (w is None or first.attr in w):
+                                        blocked = True
+                        if blocked:
+                            continue
+                    n_sub = 0
+                    for later in fn.body[j + 1:]:
+                        for node in ast.walk(later):
+                            for f_, val in ast.iter_fields(node):
+                                if isinstance(val, ast.Name) and val.id == x and isinstance(val.ctx, ast.Load):
+                                    setattr(node, f_, ast.copy_location(_clone(st.value), val))
+                                    n_sub += 1
+                                elif isinstance(val, list):
+                                    for k, v in enumerate(val):
+                                        if isinstance(v, ast.Name) and v.id == x and isinstance(v.ctx, ast.Load):
+                                            val[k] = ast.copy_location(_clone(st.value), v)
+                                            n_sub += 1
+                    fn.body[j] = ast.copy_location(ast.Pass(), st)
+                    stores[x] = 0
+                    ast.fix_missing_locations(fn)
+                    changed = True
+                    break
 
 
 def attribute_aliases(tree: ast.AST):
